@@ -1,6 +1,7 @@
 """C15 - CRC-32 equals the standard; generic reflected CRC equals bit-by-bit division; forging helpers hit any target."""
 import zlib, struct
-from mc.engine import Sub
+from mc.engine import Sub, HSystem, hsub, canon
+import importlib
 from mc.common import ramp, expander, DATA
 
 
@@ -160,6 +161,92 @@ def run_forge(ctx, pt):
         ctx.eq('C15/crc32-backward', ctx.attempt(crc32_back_pos, data, pos, c), ('ok', fw))
 
 
+class CrcSys(HSystem):
+    """the crc module as one object: its precomputed tables and the default arguments of its functions are shared by every
+    caller.  Events: building forward / backward tables for other polynomials, generic CRCs with them, and the CRC-32 helpers."""
+    POLYS = [(0x82F63B78, 32), (0xA001, 16), (0xEDB88320, 32), (0xC96C5795D7870F42, 64)]
+    DATA = [b'123456789', bytes(range(40, 53))]
+
+    def fresh(self):
+        import crysp.crc as C
+        return {'C': importlib.reload(C), 'T': {}, 'Tb': {}}
+
+    def canon(self, o):
+        C = o['C']
+        mod = tuple((k, canon(v)) for k, v in sorted(vars(C).items()) if k.startswith(('TABLE', 'POLY')) or k.startswith('_'))
+        fns = tuple((k, canon(v.__defaults__), canon(getattr(v, '__dict__', {}))) for k, v in sorted(vars(C).items()) if callable(v) and getattr(v, '__module__', '') == C.__name__)
+        return (h8c(mod), fns, tuple(sorted(o['T'])), tuple(sorted(o['Tb'])))
+
+    def events(self, o):
+        ev = [('table', i) for i in range(len(self.POLYS))] + [('back-table', i) for i in range(len(self.POLYS))]
+        ev += [('crc', i) for i in sorted(o['T'])] + [('crc-back', i) for i in sorted(o['Tb'])]
+        ev += [('crc32', 0), ('crc32', 1), ('fix', 0), ('fix-pos', 0), ('fix-pos', 1), ('back-pos', 0), ('back-pos', 1)]
+        return ev
+
+    def apply(self, o, ev):
+        from crysp.bits import Bits
+        C = o['C']
+        k, i = ev
+        if k == 'table':
+            o['T'][i] = C.crc_table(Bits(*self.POLYS[i]))
+            return [int(x) for x in o['T'][i]]
+        if k == 'back-table':
+            o['Tb'][i] = C.crc_back_table(Bits(*self.POLYS[i]))
+            return sorted((a, int(b)) for a, b in o['Tb'][i].items())
+        if k == 'crc':
+            N = self.POLYS[i][1]
+            return C.crc(self.DATA[0], o['T'][i], (1 << N) - 1, (1 << N) - 1)
+        if k == 'crc-back':
+            P, N = self.POLYS[i]
+            m = self.DATA[0]
+            return C.crc_back_pos(m, 4, o['Tb'][i], (1 << N) - 1, bitwise_crc(P, N, m, (1 << N) - 1, (1 << N) - 1))
+        m = self.DATA[i]
+        if k == 'crc32':
+            return C.crc32(m)
+        if k == 'fix':
+            return C.crc32_fix(m, 0xdeadbeef)
+        if k == 'fix-pos':
+            return C.crc32_fix_pos(m, 2 + 3 * i, 0x01020304)
+        return C.crc32_back_pos(m, 3 + i, zlib.crc32(m))
+
+    def judge(self, ctx, hist, ev, res, o):
+        k, i = ev
+        K = 'C15/module-histories/'
+        if k == 'table':
+            P, N = self.POLYS[i]
+            ctx.eq(K + 'crc_table', res, ('ok', [bitwise_crc(P, N, bytes([b]), 0, 0) for b in range(256)]))
+        elif k == 'back-table':
+            ctx.ok(K + 'crc_back_table', res[0] == 'ok' and [a for a, _ in res[1]] == list(range(256)), res)
+        elif k == 'crc':
+            P, N = self.POLYS[i]
+            ctx.eq(K + 'generic-crc', res, ('ok', bitwise_crc(P, N, self.DATA[0], (1 << N) - 1, (1 << N) - 1)))
+        elif k == 'crc-back':
+            P, N = self.POLYS[i]
+            ctx.eq(K + 'crc-backward', res, ('ok', bitwise_crc(P, N, self.DATA[0][:4], (1 << N) - 1, 0)))
+        elif k == 'crc32':
+            ctx.eq(K + 'crc32', res, ('ok', zlib.crc32(self.DATA[i])))
+        elif k == 'fix':
+            m = self.DATA[i]
+            ok = res[0] == 'ok' and isinstance(res[1], bytes) and len(res[1]) == len(m) and res[1][:-4] == m[:-4] and zlib.crc32(res[1]) == 0xdeadbeef
+            ctx.ok(K + 'crc32_fix', ok, res, 'same data, last four bytes changed, CRC-32 = deadbeef')
+        elif k == 'fix-pos':
+            m, pos = self.DATA[i], 2 + 3 * i
+            ok = res[0] == 'ok' and isinstance(res[1], bytes) and len(res[1]) == len(m) and res[1][:pos] == m[:pos] and res[1][pos + 4:] == m[pos + 4:] and zlib.crc32(res[1]) == 0x01020304
+            ctx.ok(K + 'crc32_fix_pos', ok, res, 'same data, bytes pos..pos+3 changed, CRC-32 = 01020304')
+        else:
+            m = self.DATA[i]
+            ctx.eq(K + 'crc32-backward', res, ('ok', zlib.crc32(m[:3 + i]) ^ 0xffffffff))
+
+
+def h8c(x):
+    from mc.engine import h8
+    return h8(x).hex()
+
+
+def crc_systems(tier):
+    return {'crc-module': CrcSys()}
+
+
 def subchecks():
     return [
         Sub('crc32', pts_crc32, run_crc32, engine='D', bound='every byte string of length 0..2 (65793) and 6 data patterns at every length 3..64 (thorough ..128) vs zlib.crc32'),
@@ -168,6 +255,8 @@ def subchecks():
             bound='every width 8..64 x {top bit only, all ones, named standard, expander-derived (+3 in thorough)} x 2 patterns of length 0..9 x init/final in {0,all-ones}^2; backward computation at every position'),
         Sub('same-value-widths', pts_samevalue, run_samevalue, engine='H', chunk=1,
             bound='polynomial values A001, EDB88320, 8C, 1, C96C5795D7870F42 each used at 1-5 widths in sequence in one process (also in descending order): tables, forward and backward CRC with init in {0, all-ones, all-ones>>1}, final in {0, all-ones}'),
+        hsub('module-histories', crc_systems, lambda tier: 3 if tier == 'quick' else 4, split=lambda tier: 4 if tier == 'quick' else 15,
+             bound='one loaded crc module: crc_table / crc_back_table for CRC-32C, CRC-16/ARC, CRC-32 and CRC-64/XZ, generic forward and backward CRC with the tables built so far, crc32, crc32_fix, crc32_fix_pos, crc32_back_pos on two inputs; all histories to depth 3 (thorough 4); state = module tables + function defaults/attributes + which tables the caller holds; every answer vs zlib / bit-by-bit division'),
         Sub('forging', pts_forge, run_forge, engine='P', exhaustive=False,
             bound='data length 4..12 (thorough ..16) x 2 patterns x every position x targets {0, ~0, 32 single-bit words, crc32(data), 3 fixed words} and the targets that make the fixing window 00000000 / ffffffff / 00000001 / 80000000 / 00000100'),
     ]
